@@ -190,7 +190,7 @@ fn check_with_faults(h: &History, kf: &KnownFindings, st: &mut Stats, enumerate_
 }
 
 pub fn replay(case: &Value, kf: &KnownFindings) -> Result<(), Failure> {
-    let h = History::from_json(case);
+    let h = super::cross::case_history(case);
     let (_, recs) = run_history(&h).map_err(|e| Failure::new("harness", h.json(), e))?;
     let _ = kf;
     judge(&h, &recs).map(|_| ())
